@@ -365,7 +365,12 @@ mutual
     | x :: xs, h => by simp [scalarsOKList, scalarsOK_of_OKv x h.1, scalarsOKList_of xs h.2]
   theorem scalarsOKMembers_of : ∀ (ks : List (Bytes × CV)), OKvMembers ks → scalarsOKMembers ks = true
     | [], _ => rfl
-    | (k, x) :: ks, h => by simp [scalarsOKMembers, scalarsOK_of_OKv x h.2.1, scalarsOKMembers_of ks h.2.2]
+    | (k, x) :: ks, h => by
+      have hn : nameOK k = true := by
+        have := h.1
+        simp only [NameOK] at this
+        simp [nameOK, this.1, this.2]
+      simp [scalarsOKMembers, hn, scalarsOK_of_OKv x h.2.1, scalarsOKMembers_of ks h.2.2]
 end
 
 theorem representable_of_OKb (v : CV) (hv : OKb v) : representable v = true := by
